@@ -146,13 +146,6 @@ def hook_packages(
     # ....................{ HOOKS                          }....................
     # With a submodule-specific thread-safe reentrant lock...
     with claw_lock:
-        # ....................{ BLACKLIST                  }....................
-        # If blacklisting one or more packages from type-checking, do so.
-        # print(f'Blacklisting packages: {repr(conf.claw_skip_package_names)}')
-        if conf.claw_skip_package_names:
-            _blacklist_packages(conf.claw_skip_package_names)
-        # Else, *NO* packages are being blacklisted from type-checking. Fine!
-
         # ....................{ WHITELIST ~ beartype_all   }....................
         # If type-checking *ALL* packages, do so.
         if claw_coverage is BeartypeClawCoverage.PACKAGES_ALL:
@@ -161,6 +154,19 @@ def hook_packages(
         # Else, only a subset of packages are being type-checked. Do it! Do it!
         else:
             _whitelist_packages_some(package_names=package_names, conf=conf)  # type: ignore[arg-type]
+
+        # ....................{ BLACKLIST                  }....................
+        # If blacklisting one or more packages from type-checking, do so.
+        #
+        # Note that we intentionally defer doing so until *AFTER* the above
+        # whitelisting has succeeded. If the above whitelisting instead raises an
+        # exception (e.g., due to the caller passing a beartype configuration
+        # conflicting with that passed to a prior call), this call is guaranteed
+        # to preserve the prior state of all packages tries as is.
+        # print(f'Blacklisting packages: {repr(conf.claw_skip_package_names)}')
+        if conf.claw_skip_package_names:
+            _blacklist_packages(conf.claw_skip_package_names)
+        # Else, *NO* packages are being blacklisted from type-checking. Fine!
 
         # ....................{ path hook                  }....................
         # Lastly, if our beartype import path hook singleton has *NOT* already
@@ -378,6 +384,46 @@ def _whitelist_packages_some(
 
     # Avoid circular import dependencies.
     from beartype.claw._clawstate import claw_state
+
+    # For the fully-qualified name of each package to be whitelisted, raise an
+    # exception if this package has already been whitelisted under a conflicting
+    # configuration *BEFORE* whitelisting any of these packages below. Doing so
+    # guarantees this function to either whitelist all or none of these
+    # packages, preserving the prior state of the global trie whitelist on
+    # conflicts.
+    for package_name in package_names:  # type: ignore[union-attr]
+        # Current subtrie of the global trie whitelist describing this package
+        # if this package or a child package of this package has already been
+        # whitelisted *OR* "None" otherwise.
+        subpackages_trie_whitelist_old = claw_state.packages_trie_whitelist
+        for package_basename in package_name.split('.'):
+            subpackages_trie_whitelist_old = (
+                subpackages_trie_whitelist_old.get(package_basename))  # type: ignore[assignment]
+            if subpackages_trie_whitelist_old is None:
+                break
+
+        # Beartype configuration currently associated with this package by a
+        # prior call to this function if any *OR* "None" otherwise.
+        conf_old = (
+            subpackages_trie_whitelist_old.conf_if_hooked
+            if subpackages_trie_whitelist_old is not None else
+            None
+        )
+
+        # If this package was already whitelisted under a different
+        # configuration, raise an exception.
+        if conf_old is not None and conf_old != conf:
+            raise BeartypeClawHookException(
+                f'Beartype import hook '
+                f'(e.g., beartype.claw.beartype_*() function) '
+                f'previously passed conflicting beartype configuration for '
+                f'package "{package_name}":\n'
+                f'\t----------( OLD "conf" PARAMETER )----------\n'
+                f'\t{repr(conf_old)}\n'
+                f'\t----------( NEW "conf" PARAMETER )----------\n'
+                f'\t{repr(conf)}\n'
+            )
+        # Else, this package is safely whitelistable under this configuration.
 
     # For the fully-qualified name of each package to be whitelisted...
     for package_name in package_names:  # type: ignore[union-attr]
